@@ -1013,7 +1013,14 @@ where
                 self.adjust_connection_state(&mut runtime);
             }
 
-            if self.config.notify_down_members {
+            // An undead instance doesn't argue back: replying to a TurnUndead
+            // with another one when there's nothing we can do about our own
+            // state makes two members that consider each other down bounce
+            // this message back and forth forever
+            let undead_told_again =
+                message == Message::TurnUndead && self.connection_state == ConnectionState::Undead;
+
+            if self.config.notify_down_members && !undead_told_again {
                 self.send_message(src, Message::TurnUndead, runtime)?;
             }
 
